@@ -29,7 +29,7 @@ from wormhole.util import bytes_to_dict, dict_to_bytes
 from .. import LOGGED
 from ..core import Result
 from ..util import automat_state
-from ..worlds.mailbox import World
+from ..worlds.mailbox import World, verdict_name
 
 ID = "C02"
 PROP_MODULES = ["WV.Props.C02"]
@@ -263,6 +263,48 @@ class Runner:
                               f"client {ci}: PAKE message {desc!r} made {exc} escape from ws_message/set_code instead of "
                               f"closing with WrongPasswordError"))
 
+    # -- Deferred-mode clients: Boss -> _DeferredWormhole calls are logged like delegate callbacks (that is what the
+    #    model is compared with); what the get_*() Deferreds fire with is recorded separately, for the oracle
+    def setup_deferred(self, c):
+        c.deferred_api = True
+        c.dres = []          # (what, request number, "ok"/"err", value)
+        c.nreq = 0
+        c.event = lambda name, value=None: c.dres.append(("auto:" + name.rstrip("!"), -1, "err" if name.endswith("!") else "ok", value))
+        w = c.w
+        fmt = {"got_welcome": ("welcome", lambda v: None), "got_code": ("code", lambda v: v),
+               "got_key": ("key", lambda v: v.hex()), "got_verifier": ("verifier", lambda v: v.hex()),
+               "got_versions": ("versions", lambda v: json.dumps(v, sort_keys=True)),
+               "received": ("message", lambda v: v.hex()), "closed": ("closed", verdict_name)}
+        for meth, (name, f) in fmt.items():
+            orig = getattr(w, meth)
+
+            def wrapper(v, _orig=orig, _name=name, _f=f):
+                c.events.append((_name, _f(v)))
+                return _orig(v)
+            setattr(w, meth, wrapper)
+
+    def request(self, ci, what, chain=0):
+        """the application calls get_message()/get_versions()/get_verifier(); with chain > 0 the callback issues the
+        next request from inside itself"""
+        c = self.W.clients[ci]
+        if not getattr(c, "deferred_api", False):
+            return
+        d = {"message": c.w.get_message, "versions": c.w.get_versions, "verifier": c.w.get_verifier}[what]()
+        no = c.nreq
+        c.nreq += 1
+        self.tags.add("get:" + what + (":chained" if chain else ""))
+
+        def cb(res):
+            from twisted.python import failure as _f
+            if isinstance(res, _f.Failure):
+                c.dres.append((what, no, "err", verdict_name(res)))
+            else:
+                v = res.hex() if isinstance(res, bytes) else json.dumps(res, sort_keys=True)
+                c.dres.append((what, no, "ok", v))
+                if chain > 0:
+                    self.request(ci, what, chain - 1)
+        d.addBoth(cb)
+
     def machine(self, obj):
         try:
             return automat_state(obj)
@@ -346,7 +388,8 @@ class Runner:
         payload = c.conn.s2c.popleft()
         msg = bytes_to_dict(payload)
         t = msg.get("type")
-        if t == "message" and self.hold[ci] and msg.get("side") != c.side:
+        if t == "message" and msg.get("side") != c.side and \
+                (self.hold[ci] is True or (self.hold[ci] and self.hold[ci] == msg.get("phase"))):
             self.held[ci].append(payload)       # the server delivers it later (`release`)
             return True
         snap = self.snapshot(ci)
@@ -528,8 +571,8 @@ class Runner:
                     c.conn.s2c.clear()
                     c.conn.s2c.extend(keep)
                     self.tags.add("op:dropmsg")
-        elif k == "hold":            # from now on the server withholds the peer's messages from client ci
-            self.hold[op[1]] = True
+        elif k == "hold":            # from now on the server withholds the peer's messages (or only those of one phase)
+            self.hold[op[1]] = op[2] if len(op) > 2 else True
         elif k == "release":         # … and now delivers them: in order, or the encrypted ones BEFORE the PAKE message,
             ci, mode, sidearg = op[1:4]   # the first encrypted one optionally under a rewritten side label
             c = W.clients[ci]
@@ -582,7 +625,18 @@ class Runner:
             self.api(ci, "send " + (h or "-"), lambda: W.clients[ci].w.send_message(bytes.fromhex(h)))
         elif k == "close":
             ci = op[1]
-            self.api(ci, "close", lambda: W.clients[ci].w.close())
+            c = W.clients[ci]
+
+            def do_close():
+                d = c.w.close()
+                if d is not None:        # Deferred API: close() returns a Deferred (maybe a Failure)
+                    d.addBoth(lambda r: c.dres.append(("close", -1, "ok", verdict_name(r))))
+            self.api(ci, "close", do_close)
+        elif k == "get":             # k requests issued in one go (pipelined when k > 1)
+            for _ in range(op[3]):
+                self.request(op[1], op[2])
+        elif k == "getchain":        # one request; its callback issues the next, `depth` times
+            self.request(op[1], op[2], chain=op[3])
         elif k == "c2s":
             self.c2s(op[1])
         elif k == "s2c":
@@ -691,8 +745,13 @@ class Runner:
         n_log0 = len(LOGGED)
         with World(seed=case.get("seed", 0)) as W:
             self.W = W
+            deferred = case.get("deferred")
+            if deferred is None:         # at least one client of every case uses the Deferred API
+                deferred = [case.get("seed", 0) % 2]
             for ci in (0, 1):
-                c = W.add_client(delegated=True, versions={"v": ci, "x": case.get("seed", 0) % 7})
+                c = W.add_client(delegated=(ci not in deferred), versions={"v": ci, "x": case.get("seed", 0) % 7})
+                if ci in deferred:
+                    self.setup_deferred(c)
                 self.lines.append(f"new {ci} {hs(c.side)} {hx(dict_to_bytes(c.boss._versions))}")
                 self.expect.append("ok")
             for op in case["script"]:
@@ -702,6 +761,11 @@ class Runner:
                 if self.hold[ci] or self.held[ci]:
                     self.do(["release", ci, "fifo", None])
             self.settle()
+            for ci in (0, 1):            # the application drains what is still queued for it
+                if getattr(W.clients[ci], "deferred_api", False) and not any(n == "closed" for n, _ in W.clients[ci].events):
+                    self.do(["get", ci, "message", 8])
+                    self.do(["get", ci, "versions", 1])
+            self.settle()
             for ci in (0, 1):
                 if not any(n == "closed" for n, _ in W.clients[ci].events):
                     self.do(["close", ci])
@@ -710,6 +774,37 @@ class Runner:
         del LOGGED[n_log0:]
         nontrivial = self.tampered or any(t.startswith("dispatch") or t.startswith("exc") for t in self.tags)
         return Result(self.lines, self.expect, self.viol, sorted(self.tags), nontrivial=nontrivial or True)
+
+    def oracle_deferred(self, ci, c, K, allowed, w_msgs, w_vers):
+        """what the application's Deferreds fired with: get_message() results are the phases 0, 1, 2 … in request order,
+        each once, each sealed for exactly that phase; get_versions()/get_verifier() fire with what the peer sealed / what
+        the session key gives, nothing else"""
+        got = [bytes.fromhex(v) for (w, no, st, v) in sorted((r for r in c.dres if r[0] == "message"), key=lambda r: r[1]) if st == "ok"]
+        for n, m in enumerate(got):
+            if m not in allowed.get(("num", n), []):
+                self.viol.append(("deferred-message-not-phase-n", f"client {ci}: the {n}-th get_message() fired with {m.hex()}, which was not "
+                                  f"sealed under the session key for phase {n} by another side"))
+                break
+        if got != w_msgs[:len(got)]:
+            self.viol.append(("deferred-messages-differ", f"client {ci}: get_message() Deferreds fired with {[m.hex() for m in got][:4]}, Boss "
+                              f"handed over {[m.hex() for m in w_msgs][:4]}"))
+        for (w, no, st, v) in c.dres:
+            if st != "ok":
+                continue
+            if w in ("versions", "auto:versions"):
+                ok = False
+                for pt in allowed.get(("version",), []):
+                    try:
+                        if json.loads(pt.decode("utf8")).get("app_versions", {}) == json.loads(v):
+                            ok = True
+                    except Exception:
+                        pass
+                if not ok or (w_vers and json.loads(w_vers[0]) != json.loads(v)):
+                    self.viol.append(("deferred-versions-not-sealed", f"client {ci}: get_versions() fired with {v}, which is not what a key "
+                                      f"holder sealed for phase 'version' (Boss handed over {w_vers[:1]})"))
+            if w in ("verifier", "auto:verifier"):
+                if K is None or v != ref_hkdf(K, b"wormhole:verifier").hex():
+                    self.viol.append(("deferred-verifier-wrong", f"client {ci}: get_verifier() fired with {v[:16]}…, not derive_key(K, 'wormhole:verifier')"))
 
     # -- the property, on the real run
     def oracle(self):
@@ -743,6 +838,8 @@ class Runner:
             for n, m in enumerate(dil):
                 if m not in allowed.get(("dilate", n), []):
                     self.viol.append(("delivered-not-sealed", f"client {ci}: dilation message #{n} = {m.hex()} was not sealed for phase dilate-{n}"))
+            if getattr(c, "deferred_api", False):
+                self.oracle_deferred(ci, c, K, allowed, msgs, vers)
             closed = [v for n, v in c.events if n == "closed"]
             if len(closed) > 1:
                 self.viol.append(("closed-twice", f"client {ci}: closed delivered {len(closed)} times: {closed}"))
@@ -860,7 +957,7 @@ def prepake_case(rng):
     a rewritten side label; the PAKE message follows and Order drains its queue"""
     v = rng.randrange(2)
     s = [["open", 0], ["open", 1]] + [["code", c] for c in rng.choice([[0, 1], [1, 0]])]
-    s.append(["hold", v])
+    s.append(["hold", v] if rng.random() < 0.7 else ["hold", v, "version"])   # … or only its version: phases overtake it
     for _ in range(rng.randrange(0, 3)):
         s.append(["send", rng.randrange(2), payload(rng)])
     s.append(["pump", rng.choice([8, 10, 14])])
@@ -875,7 +972,32 @@ def prepake_case(rng):
     return dict(kind="run", seed=rng.randrange(10**6), honest=False, script=s)
 
 
+def add_requests(rng, case):
+    """which client(s) use the Deferred API, and when the application asks for messages / versions / verifier: one at
+    a time, pipelined (k in one turn), from inside the previous callback; before and after the messages arrive"""
+    d = rng.choice([[0], [1], [0, 1]])
+    case["deferred"] = d
+    s = case["script"]
+    for _ in range(rng.choice([1, 2, 3, 4])):
+        ci = rng.choice(d)
+        what = rng.choice(["message", "message", "message", "versions", "verifier"])
+        r = rng.random()
+        if r < 0.4:
+            op = ["get", ci, what, 1]
+        elif r < 0.75:
+            op = ["get", ci, what, rng.choice([2, 2, 3, 5])]
+        else:
+            op = ["getchain", ci, what, rng.choice([1, 2, 4])]
+        pos = rng.randrange(4, len(s) + 1)
+        s.insert(pos, op)
+    return case
+
+
 def gen_case(rng, ntamper=None):
+    return add_requests(rng, gen_case0(rng, ntamper))
+
+
+def gen_case0(rng, ntamper=None):
     if rng.random() < 0.15:
         return prepake_case(rng)
     ka, kb = rng.randrange(0, 7), rng.randrange(0, 7)
@@ -977,6 +1099,22 @@ def corpus():
             out.append(dict(kind="run", seed=10, honest=(sidearg is None),
                             script=H + [["hold", v], ["send", 1 - v, "cc01"], ["pump", 10], ["release", v, mode, sidearg],
                                         ["send", v, "dd01"], ["settle"]]))
+    # Deferred API: pipelined get_message() with >= 2 phases already queued / requests before the messages / chained from
+    # inside the callback; the peer's version overtaken by its first numbered phase (server delay), then delivered
+    for v in (0, 1):
+        o = 1 - v
+        S3 = H + [["send", o, "c101"], ["send", o, "c202"], ["send", o, "c303"], ["pump", 12]]
+        out.append(dict(kind="run", seed=11, honest=True, deferred=[v], script=S3 + [["get", v, "message", 2], ["settle"], ["get", v, "message", 1], ["settle"]]))
+        out.append(dict(kind="run", seed=11, honest=True, deferred=[v], script=S3 + [["get", v, "message", 3], ["get", v, "versions", 2], ["get", v, "verifier", 2], ["settle"]]))
+        out.append(dict(kind="run", seed=11, honest=True, deferred=[v], script=H + [["get", v, "message", 2], ["get", v, "versions", 1], ["send", o, "c101"], ["send", o, "c202"],
+                                                                                   ["send", o, "c303"], ["settle"], ["get", v, "message", 1], ["settle"]]))
+        out.append(dict(kind="run", seed=11, honest=True, deferred=[v], script=S3 + [["getchain", v, "message", 2], ["settle"]]))
+        out.append(dict(kind="run", seed=11, honest=True, deferred=[0, 1], script=H + [["getchain", v, "message", 3], ["send", o, "c101"], ["pump", 12], ["send", o, "c202"],
+                                                                                      ["send", o, "c303"], ["settle"]]))
+        out.append(dict(kind="run", seed=11, honest=True, deferred=[v], script=H + [["hold", v, "version"], ["send", o, "c101"], ["pump", 14], ["get", v, "versions", 1],
+                                                                                   ["get", v, "message", 1], ["pump", 2], ["release", v, "fifo", None], ["settle"]]))
+        out.append(dict(kind="run", seed=11, honest=False, deferred=[v], script=H + [["hold", v, "version"], ["send", o, "c101"], ["pump", 14], ["dupmsg", v, 0],
+                                                                                    ["release", v, "fifo", None], ["get", v, "versions", 2], ["settle"]]))
     # input_code: the peer's (or a forged) PAKE arrives before the words
     I = [["open", 0], ["open", 1], ["code", 0], ["nameplate", 1], ["pump", 10]]
     out.append(dict(kind="run", seed=5, honest=True, script=I + [["code", 1], ["send", 0, "01"], ["settle"]]))
@@ -987,7 +1125,7 @@ def corpus():
 
 def cases(rng, tier):
     out = corpus()
-    n = 360 if tier == "quick" else 4500
+    n = 330 if tier == "quick" else 4200
     for _ in range(n):
         out.append(gen_case(rng))
     if tier == "thorough":
